@@ -158,6 +158,25 @@ impl<'a> World<'a> {
                                     }
                             }
                         });
+                let relaunch_failed = op == "start"
+                    && matches!(mid, Some((Some(_), pid)) if e.pid == Some(pid as u64))
+                    && out.per.iter().any(|(_, idx, r)| *idx == e.idx && r.is_err());
+                // "a failed operation never newly records a service as running when it is not": a record that was
+                // not Running with this pid before, written by an operation that failed for this very service,
+                // is not excused by the process having died in the middle of the invocation
+                let failed_here = out.per.iter().any(|(_, idx, r)| *idx == e.idx && r.is_err());
+                if !unchanged && failed_here && live.is_none() && !relaunch_failed {
+                    self.viol(
+                        "failed_operation_newly_records_running",
+                        &[("op", op.clone()), ("died_mid_operation", died_mid.into())],
+                        format!(
+                            "`{op}` failed for {} yet the registry newly records it Running with pid {:?} while the OS has no process for its binary",
+                            e.name, e.pid
+                        ),
+                        false,
+                    );
+                    return;
+                }
                 if excused {
                     // the process died by an external event and nothing written afterwards re-asserted the record
                     self.rep.probe("stale_running_record_after_external_death");
@@ -169,9 +188,6 @@ impl<'a> World<'a> {
                 let shape = if live.is_none() { "no_process" } else { "pid_mismatch" };
                 // ServiceManager::start on a service recorded Running whose process it finds dead goes straight
                 // to a relaunch without marking it stopped; if the relaunch fails the old record survives.
-                let relaunch_failed = op == "start"
-                    && matches!(mid, Some((Some(_), pid)) if e.pid == Some(pid as u64))
-                    && out.per.iter().any(|(_, idx, r)| *idx == e.idx && r.is_err());
                 if relaunch_failed {
                     self.viol(
                         "start.relaunch_failed_record_kept_running",
